@@ -446,11 +446,26 @@ def m4(ck: Check) -> None:
         # the same test written with any(...): `if any(other.find_node(space of s) not in other_successors for s in my successors)`
         for r, rpc in edge_rets:
             for b in fm.cfg.dominators(fm.cfgn(r)):
-                if b.kind == "branch" and b.test is not None and b.pol:
-                    for e in ast.walk(b.test):
-                        q = logic.quantifier(e)
-                        if q is not None and q[0] and isinstance(q[2], str):
-                            quant = (q, b, r)
+                if b.kind == "branch" and b.test is not None:
+                    tn_ = fm.cfg.nodes[next(iter(fm.cfg.g.predecessors(b.id)))]
+                    e, pol = b.test, b.pol
+                    while True:
+                        if isinstance(e, ast.UnaryOp) and isinstance(e.op, ast.Not):
+                            e, pol = e.operand, not pol
+                        elif isinstance(e, ast.Name) and fm.deref(e, tn_) is not e:
+                            e = fm.deref(e, tn_)       # the test is held in a local
+                        else:
+                            break
+                    q = logic.quantifier(e)
+                    # "some successor has no counterpart": any(..) taken, or all(..) not taken
+                    if q is not None and isinstance(q[2], str) and q[0] == pol:
+                        quant = ((True,) + tuple(q[1:]), b, r)
+                    elif b.pol:
+                        # ... or an `any(..)` somewhere inside a larger condition of the taken branch
+                        for e2 in ast.walk(b.test):
+                            q = logic.quantifier(e2)
+                            if q is not None and q[0] and isinstance(q[2], str):
+                                quant = (q, b, r)
     if quant is not None:
         (pos, it2, var2, cond2), b, r = quant
         tn = fm.cfg.nodes[next(iter(fm.cfg.g.predecessors(b.id)))]
@@ -459,6 +474,12 @@ def m4(ck: Check) -> None:
         if not (isinstance(srcx, ast.Call) and callee_name(srcx) == "node_successors" and text(srcx.func.value) == "self"
                 and text(srcx.args[0]) == i):
             probs.append("the successor test does not range over self.node_successors(node)")
+        while isinstance(cond2, ast.UnaryOp) and isinstance(cond2.op, ast.Not) and isinstance(cond2.operand, ast.UnaryOp) \
+                and isinstance(cond2.operand.op, ast.Not):
+            cond2 = cond2.operand.operand
+        if isinstance(cond2, ast.UnaryOp) and isinstance(cond2.op, ast.Not) and isinstance(cond2.operand, ast.Compare) \
+                and len(cond2.operand.ops) == 1 and isinstance(cond2.operand.ops[0], ast.In):
+            cond2 = ast.Compare(cond2.operand.left, [ast.NotIn()], cond2.operand.comparators)    # not (a in b) == a not in b
         okc = isinstance(cond2, ast.Compare) and len(cond2.ops) == 1 and isinstance(cond2.ops[0], ast.NotIn) \
             and isinstance(cond2.left, ast.Call) and callee_name(cond2.left) == "find_node" and text(cond2.left.func.value) == other \
             and fm.key(logic._rename(cond2.left.args[0], var2, "_q"), tn) == "FIELD<self|_q|space>"
